@@ -3,7 +3,8 @@
 From HV Require Import Base.Prelude Model.GroupNS Proofs.GroupNSBase Proofs.GroupNSHeap Proofs.GroupNSInv.
 
 Definition b (s : string) : bytes := map N_of_ascii (list_ascii_of_string s).
-Definition go (h : list op) := run (step go_cfg) (init go_cfg) h.
+Definition go (h : list op) := run (step go_cfg) (init go_cfg) h.          (* the tree as it is *)
+Definition gob (h : list op) := run (step base_cfg) (init base_cfg) h.      (* before the repairs *)
 Definition sp (h : list op) := run (spec_step go_cfg) s_empty h.
 Definition all_ok (rs : list result) : bool := forallb is_ok rs.
 
@@ -34,8 +35,8 @@ Proof. vm_compute. repeat split; reflexivity. Qed.
    the same heap offset (PrepareForModification's scan finds no used bytes / stops before the lone NUL) *)
 Definition h_empty_name : list op := [MkGroup (b "//"); MkGroup (b "/x")].
 Lemma empty_name_refuted :
-  all_ok (snd (go h_empty_name)) = true /\
-  group_names (fst (go h_empty_name)) 0 = Some [Some (b "x"); Some (b "x")] /\
+  all_ok (snd (gob h_empty_name)) = true /\
+  group_names (fst (gob h_empty_name)) 0 = Some [Some (b "x"); Some (b "x")] /\
   ~ NoDup [Some (b "x"); Some (b "x")].
 Proof.
   split; [vm_compute; reflexivity|]. split; [vm_compute; reflexivity|].
@@ -43,21 +44,21 @@ Proof.
 Qed.
 Definition h_dataset_root : list op := [MkDataset (b "/"); MkDataset (b "/x")].
 Lemma dataset_root_refuted :
-  all_ok (snd (go h_dataset_root)) = true /\ group_names (fst (go h_dataset_root)) 0 = Some [Some (b "x"); Some (b "x")].
+  all_ok (snd (gob h_dataset_root)) = true /\ group_names (fst (gob h_dataset_root)) 0 = Some [Some (b "x"); Some (b "x")].
 Proof. split; vm_compute; reflexivity. Qed.
 
 (* (4) a NUL byte in a name: accepted, read back truncated, duplicates an existing name *)
 Definition h_nul_name : list op := [MkGroup (b "/a"); MkGroup (b "/a" ++ [0] ++ b "b")].
 Lemma nul_name_refuted :
-  all_ok (snd (go h_nul_name)) = true /\ group_names (fst (go h_nul_name)) 0 = Some [Some (b "a"); Some (b "a")].
+  all_ok (snd (gob h_nul_name)) = true /\ group_names (fst (gob h_nul_name)) 0 = Some [Some (b "a"); Some (b "a")].
 Proof. split; vm_compute; reflexivity. Qed.
 
 (* (5) trailing slash: the group is linked as "a" but registered under the key "/a/";
    nothing can be created under "/a" afterwards (while "/a//b" works) *)
 Definition h_trailing_slash : list op := [MkGroup (b "/a/"); MkGroup (b "/a/b"); MkGroup (b "/a//b")].
 Lemma trailing_slash_refuted :
-  snd (go h_trailing_slash) = [Ok; Err ENoParent; Ok] /\
-  read_tree (fst (go h_trailing_slash)) = Some (TNode 0 KGroup [(b "a", TNode 1 KGroup [(b "b", TNode 3 KGroup [])])]).
+  snd (gob h_trailing_slash) = [Ok; Err ENoParent; Ok] /\
+  read_tree (fst (gob h_trailing_slash)) = Some (TNode 0 KGroup [(b "a", TNode 1 KGroup [(b "b", TNode 3 KGroup [])])]).
 Proof. split; vm_compute; reflexivity. Qed.
 
 (* (6) a hard link that fails in linkToParent (duplicate name, full group) leaves the target's stored
@@ -66,13 +67,13 @@ Proof. split; vm_compute; reflexivity. Qed.
 Definition h_rollback : list op := [MkDataset (b "/d")].
 Definition o_rollback : op := HardLink (b "/d") (b "/d").
 Lemma hardlink_rollback_refuted :
-  let w := fst (go h_rollback) in let w' := fst (step_body go_cfg w o_rollback) in
-  snd (step_body go_cfg w o_rollback) = Err EDup /\
+  let w := fst (gob h_rollback) in let w' := fst (step_body base_cfg w o_rollback) in
+  snd (step_body base_cfg w o_rollback) = Err EDup /\
   option_map refcount (alookup 1 (objects w)) = Some 1 /\ option_map refcount (alookup 1 (objects w')) = Some 2 /\
   ~ same_all (clock w) w w'.
 Proof.
   cbv zeta. split; [vm_compute; reflexivity|]. split; [vm_compute; reflexivity|]. split; [vm_compute; reflexivity|].
-  intros [_ H]. specialize (H 1). assert (X : 1 < clock (fst (go h_rollback))) by (vm_compute; reflexivity).
+  intros [_ H]. specialize (H 1). assert (X : 1 < clock (fst (gob h_rollback))) by (vm_compute; reflexivity).
   specialize (H X). vm_compute in H. discriminate.
 Qed.
 
